@@ -45,7 +45,7 @@ def check(tier, seed):
         if cfg is None:
             cfg = dict(gc=0, mem="24..")
         def on_result(j, r, st, det, io, cfg=cfg):
-            if st in ("no-run", "compile-crash", "skipped-ffi"):
+            if st in ("no-run", "compile-crash", "skipped-ffi", "impl-timeout", "model-timeout"):
                 return True
             k = io["kind"]
             if k.startswith("exit 1") and b"" == b"" and ("out of memory" in r["err"]):
